@@ -3,7 +3,7 @@ Engine: nprobe buildlog (real BuildLog under ASan/UBSan) + e2e (real binary: -t 
 IsPathDead).  Oracle: independent fold over the bytes that are on disk (vlib/logmodel.py)."""
 
 MANIFEST = dict(
-    engine="nprobe", category="fault_enumeration",
+    engine="nprobe+e2e", category="fault_enumeration",
     technique="runtime monitoring + fault injection: real BuildLog driven through sessions, file cut at every byte offset, "
               "continuations (append/reload/recompact/restat); oracle = independent fold of the on-disk bytes",
     text="Histories of RecordCommand sessions over adversarial output names are run through the real BuildLog; the resulting "
